@@ -57,6 +57,35 @@ class FileCache:
         self.update_file_futures_and_memory(file_name, memory_usage=memory_usage)
         return contents
 
+    @staticmethod
+    def _dirs_gaining_entry(path):
+        """
+        The directories that get a new entry when `path` is created together with its
+        missing parent directories: the parent of every path component that does not exist yet.
+        """
+        dirs = []
+        while not os.path.exists(path):
+            parent = os.path.dirname(path)
+            if parent == path:
+                break
+            dirs.append(parent or os.curdir)
+            path = parent
+        return dirs
+
+    @staticmethod
+    def _fsync_dir(dir_path):
+        """
+        fsync a directory so that entries created in it survive a crash (no-op on Windows,
+        where a directory cannot be opened).
+        """
+        if os.name == 'nt':
+            return
+        fd = os.open(dir_path, os.O_RDONLY)
+        try:
+            os.fsync(fd)
+        finally:
+            os.close(fd)
+
     def _write_file(self, file_name, new_file_contents, use_fsync):
         """
         Write a file to the filesystem, with option to use fsync to ensure that all data is written to the filesystem.
@@ -71,6 +100,7 @@ class FileCache:
         """
         write_fname = os.path.join(self.root_path, file_name)
         write_path = os.path.dirname(write_fname)
+        new_entry_dirs = self._dirs_gaining_entry(write_fname) if use_fsync else []
         os.makedirs(write_path, exist_ok=True)
         with open(os.path.join(self.root_path, file_name), 'wb') as f:
             f.write(new_file_contents)
@@ -79,6 +109,11 @@ class FileCache:
                 # fsync would sync an empty file and the write would happen at close
                 f.flush()
                 os.fsync(f.fileno())
+        if use_fsync:
+            # a new file (and every directory created for it) is durable only once
+            # the directory holding its entry has been synced as well
+            for dir_path in new_entry_dirs:
+                self._fsync_dir(dir_path)
         contents, memory_usage = self.process_contents(new_file_contents)
         self.update_file_futures_and_memory(file_name, memory_usage=memory_usage)
         return contents
